@@ -22,15 +22,16 @@ void vrt_wb_register_schedulers(void) {
   for (size_t i = 0; i < fiber_scheduler_num_threads; i++) {
     fiber_scheduler_wsd_t* s = &fiber_schedulers[i];
     char nm[32];
-    static const vrt_field_t dq[] = {{"q", 0, 0, VD_CUSTOM, 0, dec_deque}};
+    static const vrt_field_t dq[] = {{"q", 0, 0, VD_CUSTOM, VF_WAKEIDLE, dec_deque}};
     snprintf(nm, sizeof nm, "dq%zua", i);
     vrt_reg_obj(nm, s->queue_one, sizeof(wsd_work_stealing_deque_t), dq, 1);
     snprintf(nm, sizeof nm, "dq%zub", i);
     vrt_reg_obj(nm, s->queue_two, sizeof(wsd_work_stealing_deque_t), dq, 1);
     static const vrt_field_t sf[] = {
-        {"from", offsetof(fiber_scheduler_wsd_t, schedule_from), 8, VD_PTR, VF_NOEPOCH, 0},
+        {"from", offsetof(fiber_scheduler_wsd_t, schedule_from), 8, VD_PTR, VF_NOEPOCH | VF_NOSCHED, 0},
+        {"to", offsetof(fiber_scheduler_wsd_t, store_to), 8, VD_PTR, VF_NOEPOCH | VF_NOSCHED, 0},
     };
     snprintf(nm, sizeof nm, "sch%zu", i);
-    vrt_reg_obj(nm, s, sizeof *s, sf, 1);
+    vrt_reg_obj(nm, s, sizeof *s, sf, 2);
   }
 }
